@@ -466,6 +466,26 @@ def _spliced_gene_before_area_case(rng):
             "ovl": rng.choice([0, 3]), "sampled": True}
 
 
+def _reverse_spliced_gene_and_later_gene_case(rng):
+    """ a line with a reverse-strand gene in two exons (listed from the higher one, as such genes are), another gene that
+        starts between the two exons, and a search area that overlaps the lower exon and ends before the other gene
+        starts; an ORF is planted inside the lower exon """
+    length = rng.choice([60, 72])
+    low = [rng.randrange(2, 6), rng.randrange(22, 27)]
+    other = rng.randrange(low[1] + 4, low[1] + 8)
+    high_start = other + rng.randrange(10, 16)
+    spliced = {"parts": [[high_start, high_start + 6], low], "strand": -1}
+    plain = {"parts": [[other, other + 6]], "strand": rng.choice([1, -1])}
+    area = {"parts": [[low[0] + 1, other - rng.randrange(0, 3)]], "strand": 1}
+    background = [rng.choice("CG") for _ in range(length)]
+    orf = "ATG" + rng.choice(["AAA", "CCC", "GCA"]) + rng.choice(["TAA", "TGA", "TAG"])
+    at = rng.randrange(low[0] + 2, low[1] - len(orf))
+    for offset, base in enumerate(orf):
+        background[at + offset] = base
+    return {"op": "all", "rec": codes("".join(background)), "circ": False, "genes": [spliced, plain], "area": area,
+            "min": rng.choice([6, 9]), "ovl": rng.choice([0, 3]), "sampled": True}
+
+
 def _gaps_cases(rng, quick):
     cases = []
     length = 8
@@ -613,6 +633,7 @@ def run(ctx):
         cases.append(_two_wrapping_orfs_case(rng))
     for _ in range(150 if ctx.quick else 3000):
         cases.append(_spliced_gene_before_area_case(rng))
+        cases.append(_reverse_spliced_gene_and_later_gene_case(rng))
     for idx, case in enumerate(cases):
         case["id"] = idx
     cases_by_id = {case["id"]: case for case in cases}
